@@ -15,7 +15,7 @@ Out   == IOEnv.VERIF_OUT
 Depth == IF "VERIF_DEPTH" \in DOMAIN IOEnv THEN atoi(IOEnv.VERIF_DEPTH) ELSE 14
 NS    == 5
 S     == 1 .. NS
-ScalarCl == {"0", "1", "2", "3", "r-1", "r-2", "h", "2^64", "2^128", "2^252", "2^64-1", "2^63", "2^128-1", "2^192-1", "lam", "lam+1", "lam-1", "-lam", "rnd1", "rnd2", "rnd3", "rnd4", "mont:1", "mont:2^64-1", "mont:2^64"}
+ScalarCl == {"0", "1", "2", "3", "r-1", "r-2", "h", "2^64", "2^128", "2^252", "2^64-1", "2^63", "2^128-1", "2^192-1", "lam", "lam+1", "lam-1", "-lam", "rnd1", "rnd2", "rnd3", "rnd4", "mont:1", "mont:2^64-1", "mont:2^64", "asmont:1", "asmont:-1"}
 ZCl   == {"2", "p-1", "rnd1", "rnd2"}
 Lists == {<<a>> : a \in S} \cup {<<a, b>> : a \in S, b \in S} \cup {<<a, b, c>> : a \in S, b \in S, c \in S}
          \cup {<<a, b, a, c, b>> : a \in S, b \in S, c \in S} \cup {<<>>}
@@ -48,7 +48,7 @@ Next ==
         \/ \E d \in {R(S)} : Step(Op("id", d, 0, 0, "", <<>>), [st EXCEPT ![d] = "ok"])
         \/ \E d \in {R(S)} : Step(Op("srs", d, R({0, 1, 4, 5, 128, 255}), 0, "", <<>>), [st EXCEPT ![d] = "ok"])
         \* a point built from the y side: canonical y at the boundary of the sign choice ((p-1)/2 limb by limb, p-1)
-        \/ \E d \in {R(S)} : Step(Op("ypt", d, R(0 .. 40), 0, R({"yhalf", "yhalf64", "yhalf128", "yhalf192", "ytop"}), <<>>), [st EXCEPT ![d] = "ok"])
+        \/ \E d \in {R(S)} : Step(Op("ypt", d, R(0 .. 63), 0, R({"yhalf", "yhalf64", "yhalf128", "yhalf192", "ytop", "ydyad", "ydyad", "ypat"}), <<>>), [st EXCEPT ![d] = "ok"])
         \* a distinguished element (G, -G, 2G, identity, SRS[0], -SRS[0]) in a chosen raw representative
         \/ \E d \in {R(S)} : Step(Op("spt", d, R(0 .. 5), 0, R({"norm", "flip", "proj", "projflip"}), <<>>), [st EXCEPT ![d] = "ok"])
         \* a point built from its ratio x/y, at a boundary of the reduction into the scalar field (next to k*r, to p, to 0, to a limb boundary)
